@@ -184,7 +184,13 @@ func runMuxAcceptorClosesMid() (impl, pred string) {
 	}
 	var once sync.Once
 	closed := make(chan struct{})
-	plugin.VerifSetPoint("grpcmux.server.accepted", func() { once.Do(func() { ln.Close(); close(closed) }) })
+	plugin.VerifSetPoint("grpcmux.server.accepted", func() {
+		once.Do(func() {
+			ln.Close()
+			time.Sleep(60 * time.Millisecond) // whatever that close woke up has run before the loop looks the listener up
+			close(closed)
+		})
+	})
 	defer plugin.VerifSetPoint("grpcmux.server.accepted", nil)
 	t0 := time.Now()
 	ans, conn, err := pingKeep(p.host, 70, 3*time.Second)
@@ -1297,6 +1303,11 @@ func init() {
 			for _, x := range dgs {
 				o.emit(fmt.Sprintf("!C08.dial-first-gap role=%s start=%d gap=2000", x.role, x.start), x.impl, x.pred)
 			}
+		}
+		// a knock nobody answers (dial first, no accept), then a fresh pair in the same direction: later dials are not held up
+		for _, role := range []string{"server", "client"} {
+			impl, pred := runMuxLiveness(role, "dial-unmatched")
+			o.emit("!C08.after-failed-knock role="+role, impl, pred)
 		}
 		// a brokered connection that connects a second time by itself (its server retires transports by age)
 		{
